@@ -21,8 +21,10 @@ Proved here for ALL gate lists / circuits (induction over the exporter loop):
 * `qasm_text_shape`, `qasm_roundtrip` – the emitted declaration is read back as (name, formals,
   one line per non-nop gate) under the decidable `qasmReadable`;
 * `qasm_formals_full` – repaired exporter: exactly one formal per qubit, in index order;
-* `C13_partial`-style statements for the code as it is: `qasm_formals_in_order` is NOT proved
-  (see docs/notes/C13.md); the witnesses below show where the code violates the property.
+* `C13_partial` – the conjunction of the above, for every quirk setting (code as it is and
+  repaired); its doc comment names what is missing with respect to `C13_statement`;
+* `…_witness` – concrete inputs on which the model of the code as it is violates the property
+  (one per open finding, by `decide`).
 -/
 namespace QV.C13
 open QV QV.Export
